@@ -17,5 +17,27 @@ func baseProfile(name string) *Profile {
 
 func profileFor(name string) *Profile {
 	p := baseProfile(name)
+	switch name {
+	case "C07":
+		p.Shadows = []string{"nomw"}
+		p.ClassW = map[string]int{"canon": 15, "refuse": 3, "free": 5, "plain": 40, "nearmiss": 25, "exotic": 2}
+		p.W["sendout"] = 14
+		p.W["byz"] = 8
+	case "C11":
+		p.Shadows = []string{"nodust", "moredust"}
+		p.W["dust"] = 16
+	case "C08":
+		p.Shadows = []string{"pausediff"}
+		p.W["orbadmin"] = 18
+	case "C09":
+		p.Shadows = []string{"actiondiff"}
+		p.W["orbadmin"] = 18
+	case "C18":
+		p.Shadows = []string{"limitup"}
+		p.W["orbadmin"] = 14
+		p.PassW = []int{2, 3, 4, 3}
+	case "ALL":
+		p.Shadows = []string{"nomw", "nodust", "moredust", "pausediff", "actiondiff", "limitup"}
+	}
 	return p
 }
